@@ -62,9 +62,9 @@ def keysOf (prop : String) : List String :=
   else ["n", "held", "persisted", "radius", "maxkept", "dropped", "mindropped"]
 
 def clausesOf (prop : String) : List String :=
-  if prop == "C04" then ["get_only_put", "get_returns_stored_until_pruned", "returned_bytes_stable", "put_error", "pruned_item_stays_pruned", "refused_put_changes_nothing"]
+  if prop == "C04" then ["get_only_put", "get_returns_stored_until_pruned", "returned_bytes_stable", "put_error", "pruned_item_stays_pruned", "refused_put_changes_nothing", "counter_ge_held_inside_pruning_put"]
   else if prop == "C05" then ["counter_ge_held", "held_le_cap", "prune_frees_5pct", "farthest_first", "put_error", "counter_ge_held_concurrent",
-    "counter_ge_held_put_during_prune_sync", "put_returns"]
+    "counter_ge_held_put_during_prune_sync", "put_returns", "counter_ge_held_inside_pruning_put"]
   else if prop == "C06" then ["retained_within_radius", "radius_antitone", "refusal_exact", "radius_changes_only_by_own_prune",
     "radius_only_shrinks_in_both_byte_orders", "pruned_item_stays_pruned"]
   else if prop == "C17" then ["open_radius_max_when_empty", "counter_ge_held", "open_radius_max_unless_over_95pct"]
@@ -165,7 +165,8 @@ def stepAll (d : DS) (toks : List String) (impl : String) : DS × Res :=
     (d, { model := m, monitor := if impl == m then [] else ["radius_changes_only_by_own_prune"], tags := ["twostore", "prunedA" ++ kv toks "prunedA"] })
   | some "concprune" =>
     -- put B runs while put A waits in the fsync of its pruning batch: the counter must still cover what is held
-    let mon := (if kvNat it "persisted" < kvNat it "held" then ["counter_ge_held_put_during_prune_sync"] else [])
+    let mon := (if kvNat it "persisted" < kvNat it "held" then
+                  [if kv toks "phase" == "mid" then "counter_ge_held_inside_pruning_put" else "counter_ge_held_put_during_prune_sync"] else [])
       ++ (if it.head? == some "a-stuck" then ["put_returns"] else [])
     (d, { model := "-", monitor := mon, tags := ["concprune", it.headD "?"], skipCompare := true })
   | some "conc" =>
